@@ -270,8 +270,9 @@ func solveOne(i int, o *Obligation, cfg RunConfig) {
 	os.WriteFile(file, []byte(q), 0o644)
 	res, _ := raceSolvers(file, cfg.Timeout, cfg.Solvers)
 	if res.Verdict != "unsat" && res.Verdict != "sat" && !o.Cover {
-		// one retry with a longer budget on the strongest solver
-		r2, _ := raceSolvers(file, cfg.Timeout*2, []string{"z3-new", "cvc5"})
+		// one retry with a much longer budget: a loaded machine must not turn
+		// a slow proof into an alarm
+		r2, _ := raceSolvers(file, cfg.Timeout*6, cfg.Solvers)
 		if r2.Verdict == "unsat" || r2.Verdict == "sat" {
 			res = r2
 		}
